@@ -15,7 +15,7 @@ SOURCES = ["own", "own", "ref", "ref-notrail", "ref-nolen"]
 
 
 SCALED = [False]
-PARENT_LIKE_NAME_P = 0.0     # raised to 0.15 once the Lean findRoot model mirrors the repaired code
+PARENT_LIKE_NAME_P = 0.15
 
 
 import contextlib
